@@ -27,11 +27,12 @@ from efootprint.core.usage.usage_journey import UsageJourney
 from efootprint.core.usage.usage_journey_step import UsageJourneyStep
 from efootprint.core.usage.usage_pattern import UsagePattern
 
-# (parameter, default magnitude, default unit) — defaults are the classes' own, simplified to exact decimals
+# (parameter, default magnitude, default unit) — close to the classes' own defaults; non-integers are dyadic so that
+# products of concrete defaults are exact in binary64 (no float noise enters the rational reading of constants)
 PARAMS = {
     "storage": [
         ("carbon_footprint_fabrication_per_storage_capacity", 160, "kg/TB"),
-        ("power_per_storage_capacity", 1.3, "W/TB"),
+        ("power_per_storage_capacity", 1.25, "W/TB"),
         ("lifespan", 6, "year"),
         ("idle_power", 0.5, "W"),
         ("storage_capacity", 1, "TB"),
@@ -46,9 +47,9 @@ PARAMS = {
         ("idle_power", 50, "W"),
         ("ram", 128, "GB"),
         ("compute", 24, "cpu_core"),
-        ("power_usage_effectiveness", 1.2, "dimensionless"),
+        ("power_usage_effectiveness", 1.25, "dimensionless"),
         ("average_carbon_intensity", 100, "g/kWh"),
-        ("server_utilization_rate", 0.9, "dimensionless"),
+        ("server_utilization_rate", 0.875, "dimensionless"),
         ("base_ram_consumption", 2, "GB"),
         ("base_compute_consumption", 1, "cpu_core"),
     ],
@@ -61,7 +62,7 @@ PARAMS = {
         ("compute", 4, "gpu"),
         ("carbon_footprint_fabrication_without_gpu", 2500, "kg"),
         ("lifespan", 6, "year"),
-        ("power_usage_effectiveness", 1.2, "dimensionless"),
+        ("power_usage_effectiveness", 1.25, "dimensionless"),
         ("server_utilization_rate", 1, "dimensionless"),
         ("base_compute_consumption", 0, "gpu"),
         ("base_ram_consumption", 0, "GB"),
@@ -70,7 +71,7 @@ PARAMS = {
         ("data_transferred", 150, "kB"),
         ("data_stored", 100, "kB"),
         ("request_duration", 1, "s"),
-        ("compute_needed", 0.1, "cpu_core"),
+        ("compute_needed", 0.125, "cpu_core"),
         ("ram_needed", 50, "MB"),
     ],
     "step": [("user_time_spent", 1, "min")],
@@ -81,7 +82,7 @@ PARAMS = {
         ("fraction_of_usage_time", 7, "hour/day"),
     ],
     "country": [("average_carbon_intensity", 85, "g/kWh")],
-    "network": [("bandwidth_energy_intensity", 0.05, "kWh/GB")],
+    "network": [("bandwidth_energy_intensity", 0.0625, "kWh/GB")],
 }
 KIND_OF = {"storages": "storage", "servers": "server", "jobs": "job", "steps": "step", "devices": "device",
            "countries": "country", "networks": "network", "journeys": "journey", "patterns": "pattern"}
